@@ -218,6 +218,13 @@ func (s *scn) genSpecs() {
 		}
 	case "sdsender":
 		s.specs[s.r.Intn(n)].ssender = true
+	case "finalstate":
+		// a state monitor that lags behind its runnable when shutdown stores the final state
+		s.specs = make([]spec, 1+s.r.Intn(2))
+		for i := range s.specs {
+			s.specs[i] = spec{exit: "sig", stopBlocks: s.r.Bool()}
+		}
+		s.specs[0].stateable = true
 	case "gatefail":
 		// an earlier runnable fails while the supervisor is inside IsRunning() of a later gate
 		s.specs = make([]spec, 3+s.r.Intn(2))
@@ -644,6 +651,35 @@ func (s *scn) preludeGatefail() {
 	}
 }
 
+// preludeFinalState: park runnable 0's state monitor (inside its broadcast, on a log record) while
+// the runnable goes Stopping -> Stopped during shutdown, then let it continue.
+func (s *scn) preludeFinalState() {
+	c0 := s.cores[0]
+	s.rec.WaitFor("RunCall 0", 3*time.Second)
+	s.readySet[0] = true
+	c0.SetReady(true)
+	s.quiesce()
+	park := s.ph.ParkOn("State map entry updated")
+	c0.Emit("Running", 2)
+	if !park.WaitReached(2 * time.Second) {
+		park.Release()
+		return
+	}
+	c0.Emit("Stopping", 4)
+	c0.Emit("Stopped", 5)
+	s.shutdownTriggered = true
+	s.apiCall("Shutdown", s.sup.Shutdown)
+	s.rec.WaitFor("StopRet 0", 3*time.Second)
+	time.Sleep(2 * time.Millisecond)
+	park.Release()
+	select {
+	case <-s.runDone:
+	case <-time.After(3 * time.Second):
+	}
+	s.quiesce()
+	s.snap()
+}
+
 func (s *scn) allCallersBack() bool {
 	s.mu.Lock()
 	defer s.mu.Unlock()
@@ -657,6 +693,9 @@ func (s *scn) run() {
 	s.rec.WaitQuiescent(3 * time.Second)
 	if s.family == "gatefail" {
 		s.preludeGatefail()
+	}
+	if s.family == "finalstate" {
+		s.preludeFinalState()
 	}
 	steps := 6 + s.r.Intn(18)
 	phase := "startup"
@@ -805,7 +844,7 @@ func main() {
 		child(*seed, *family)
 		return
 	}
-	fams := []string{"mixed", "startup", "timeout", "state", "reload", "sdsender", "big", "gatefail"}
+	fams := []string{"mixed", "startup", "timeout", "state", "reload", "sdsender", "big", "gatefail", "finalstate"}
 	type job struct {
 		seed uint64
 		fam  string
